@@ -31,6 +31,9 @@ def dispatch (st : DState) (line : String) : DState × String :=
   | "lrtab" :: args => (st, withArt st args fun a _ => some (showLRTab a))
   | "terminals" :: args => (st, withArt st args fun a _ => some (opTerminals a))
   | "scan" :: args => (st, withArt st args opScan)
+  | "c05oracle" :: args => (st, withArt st args fun a _ => some (opC05 a))
+  | "earley" :: args => (st, withArt st args opEarley)
+  | "tree" :: args => (st, withArt st args opTree)
   | "refscan" :: args => (st, withArt st args opRefScan)
   | "lexeq" :: args => (st, withArt st args fun a _ => some (opLexEq a))
   | "parse" :: args => (st, withArt st args opParse)
